@@ -1,6 +1,7 @@
 #![feature(rustc_private)]
 #![allow(unused)]
 extern crate rustc_abi;
+extern crate rustc_ast;
 extern crate rustc_driver;
 extern crate rustc_hir;
 extern crate rustc_infer;
@@ -354,7 +355,13 @@ impl<'tcx> Cx<'tcx> {
                     }
                 }
                 DefKind::Fn | DefKind::AssocFn => {
-                    fns.push(format!("{{\"path\":{},\"meta\":{}}}", esc(&self.stable_path(did)), self.meta(did, "fn")));
+                    let mut matches_s = String::from("[]");
+                    if let Some(body) = tcx.hir_maybe_body_owned_by(ldid) {
+                        let mut v = MatchVis { tcx, out: Vec::new() };
+                        rustc_hir::intravisit::Visitor::visit_body(&mut v, body);
+                        matches_s = format!("[{}]", v.out.join(","));
+                    }
+                    fns.push(format!("{{\"path\":{},\"meta\":{},\"matches\":{}}}", esc(&self.stable_path(did)), self.meta(did, "fn"), matches_s));
                 }
                 _ => {}
             }
@@ -431,6 +438,57 @@ impl<'tcx> Cx<'tcx> {
     }
 }
 
+
+struct MatchVis<'tcx> { tcx: TyCtxt<'tcx>, out: Vec<String> }
+impl<'tcx> MatchVis<'tcx> {
+    fn lit(&self, e: &rustc_hir::PatExpr<'tcx>) -> Option<u128> {
+        match e.kind {
+            rustc_hir::PatExprKind::Lit { lit, negated } => match lit.node {
+                rustc_ast::LitKind::Int(n, _) if !negated => Some(n.get()),
+                rustc_ast::LitKind::Byte(b) => Some(b as u128),
+                _ => None,
+            },
+            _ => None,
+        }
+    }
+    fn pat(&self, p: &rustc_hir::Pat<'tcx>) -> String {
+        use rustc_hir::PatKind;
+        match p.kind {
+            PatKind::Wild => "\"_\"".to_string(),
+            PatKind::Expr(e) => match self.lit(e) { Some(n) => format!("[{},{}]", n, n), None => "null".into() },
+            PatKind::Range(lo, hi, end) => {
+                let l = lo.and_then(|e| self.lit(e));
+                let h = hi.and_then(|e| self.lit(e));
+                match (l, h) {
+                    (Some(l), Some(h)) => format!("[{},{}]", l, if matches!(end, rustc_hir::RangeEnd::Included) { h } else { h.saturating_sub(1) }),
+                    _ => "null".into(),
+                }
+            }
+            PatKind::Or(ps) => format!("{{\"or\":[{}]}}", ps.iter().map(|x| self.pat(x)).collect::<Vec<_>>().join(",")),
+            PatKind::Tuple(ps, _) => format!("{{\"tuple\":[{}]}}", ps.iter().map(|x| self.pat(x)).collect::<Vec<_>>().join(",")),
+            PatKind::Binding(..) => "\"bind\"".to_string(),
+            _ => "null".into(),
+        }
+    }
+}
+impl<'tcx> rustc_hir::intravisit::Visitor<'tcx> for MatchVis<'tcx> {
+    type NestedFilter = rustc_middle::hir::nested_filter::OnlyBodies;
+    fn maybe_tcx(&mut self) -> Self::MaybeTyCtxt { self.tcx }
+    fn visit_expr(&mut self, ex: &'tcx rustc_hir::Expr<'tcx>) {
+        if let rustc_hir::ExprKind::Match(_scrut, arms, src) = ex.kind {
+            if matches!(src, rustc_hir::MatchSource::Normal) {
+                let interesting = arms.iter().any(|a| matches!(a.pat.kind, rustc_hir::PatKind::Tuple(..) | rustc_hir::PatKind::Range(..) | rustc_hir::PatKind::Expr(..) | rustc_hir::PatKind::Or(..)));
+                if interesting {
+                    let sm = self.tcx.sess.source_map();
+                    let lo = sm.lookup_char_pos(ex.span.lo());
+                    let arms_s: Vec<String> = arms.iter().map(|a| format!("{{\"pat\":{},\"guard\":{}}}", self.pat(a.pat), a.guard.is_some())).collect();
+                    self.out.push(format!("{{\"line\":{},\"arms\":[{}]}}", lo.line, arms_s.join(",")));
+                }
+            }
+        }
+        rustc_hir::intravisit::walk_expr(self, ex);
+    }
+}
 struct Cb;
 impl rustc_driver::Callbacks for Cb {
     fn after_analysis<'tcx>(&mut self, _c: &rustc_interface::interface::Compiler, tcx: TyCtxt<'tcx>) -> Compilation {
